@@ -7,6 +7,8 @@
              installed) re-executed by TLC against EMDriver (Trace_EM); the discrete output contracts of HySC.fit and
              HypergraphMT.fit decided by TLC on flags / integers (Trace_C17); the log-likelihood at the returned
              parameters recomputed from its definition with brute-force e_d in Python.
+             Inputs: weights absent / whole / non-integer (0.5, 1.25, ...); in a quarter of the configurations the observed
+             model OBJECT has been fitted before on another hypergraph with the same N and K (buffers kept between fits).
 """
 import itertools
 import json
